@@ -16,7 +16,8 @@ func init() {
 			"(H) both hop-by-hop tables equal the RFC 7230 set (+Proxy-Connection) and the proxy's request-side deletion is guarded by the predicate on the same name; " +
 			"(W) who-may-write: every mutation of an *http.Request (header Set/Add/Del/map store, AddCookie, stores to URL/Host/Method/Body/… fields and to fields of its URL) in the proxy's client path and in the agent's handler chain (agent.forwardRequest, agent/sessions, agent/banner, agent/websockets) is enumerated and compared with a frozen, reasoned table; the reverse proxy towards the backend is httputil.NewSingleHostReverseProxy of a URL literal with only Scheme and Host, with no Director/Rewrite/ErrorHandler override; " +
 			"(I) the request object stored by the proxy is the client's own, it is serialised with Request.Write (not WriteProxy), the agent parses it through a reader private to that reply and serves that very object; " +
-			"(T) no non-transparent stdlib handler (ServeMux, StripPrefix, TimeoutHandler, …) is built into the pass-through chain.",
+			"(T) no non-transparent stdlib handler (ServeMux, StripPrefix, TimeoutHandler, …) is built into the pass-through chain. " +
+			"(M) no pooled buffers on the request path.",
 		Assumptions: []string{
 			"net/http Request.Write/ReadRequest and httputil.ReverseProxy (Director mode) preserve method, target, Host, end-to-end header values and body bytes",
 		},
